@@ -46,6 +46,19 @@ type vxC14Stmt struct {
 	Extra  []string `json:"extra"`  // types of the bind columns after (tok<i> text, op int): "int" | "text"
 	Res    []string `json:"res"`    // result columns of a select: "int" | "text"
 	Global bool     `json:"global"` // PREPARED metadata uses the global table spec
+	Wide   int      `json:"wide,omitempty"` // >0: a select with that many int result columns (instead of Res)
+}
+
+// res: the result columns of a select.
+func (s *vxC14Stmt) res() []string {
+	if s.Wide <= 0 {
+		return s.Res
+	}
+	out := make([]string, s.Wide)
+	for i := range out {
+		out[i] = "int"
+	}
+	return out
 }
 
 type vxC14Entry struct {
@@ -117,7 +130,7 @@ func (c *vxC14Case) text(i int) string {
 	switch s.Kind {
 	case "select":
 		var rv []string
-		for j := range s.Res {
+		for j := range s.res() {
 			rv = append(rv, "v"+strconv.Itoa(j))
 		}
 		return "SELECT " + strings.Join(rv, ", ") + " FROM t WHERE " + strings.Join(conds, " AND ")
@@ -154,7 +167,7 @@ func (c *vxC14Case) resCols(i int, ks string) []cqlspec.Column {
 	if s.Kind != "select" {
 		return cols
 	}
-	for j, t := range s.Res {
+	for j, t := range s.res() {
 		cols = append(cols, cqlspec.Column{Keyspace: ks, Table: "t", Name: "v" + strconv.Itoa(j), Type: vxC14Type(t)})
 	}
 	return cols
@@ -578,7 +591,7 @@ func (w *vxC14World) onExecute(ni int, rc *vnode.ReqCtx) {
 		meta.NoMetadata = true
 	}
 	var row []cqlspec.Value
-	for j, t := range s.Res {
+	for j, t := range s.res() {
 		if t == "int" {
 			row = append(row, cqlspec.I64Value(int64(op*8+j)))
 		} else {
@@ -787,14 +800,14 @@ func (w *vxC14World) runOp(ctx context.Context, s *Session, op *vxC14Op, opID in
 		return
 	}
 	if c.Proto == 1 && len(rows) == 1 && len(rows[0]) == 0 && len(iter.Columns()) == 0 {
-		res.v1 = fmt.Sprintf("protocol 1: SELECT tok%d (op %d) was executed, the ROWS answer carried %d column(s), the caller got a row without columns", e.Stmt, opID, len(st.Res))
+		res.v1 = fmt.Sprintf("protocol 1: SELECT tok%d (op %d) was executed, the ROWS answer carried %d column(s), the caller got a row without columns", e.Stmt, opID, len(st.res()))
 		return
 	}
-	if len(rows) != 1 || len(rows[0]) != len(st.Res) {
-		res.bad = fmt.Sprintf("select tok%d (op %d) returned %v, want one row of %d columns", e.Stmt, opID, rows, len(st.Res))
+	if len(rows) != 1 || len(rows[0]) != len(st.res()) {
+		res.bad = fmt.Sprintf("select tok%d (op %d) returned %v, want one row of %d columns", e.Stmt, opID, rows, len(st.res()))
 		return
 	}
-	for j, t := range st.Res {
+	for j, t := range st.res() {
 		var want interface{} = vxC14ResText(e.Stmt, opID, j)
 		if t == "int" {
 			want = opID*8 + j
@@ -1285,6 +1298,9 @@ func vxC14Draw(t *rapid.T) *vxC14Case {
 			Extra: rapid.SliceOfN(typ, 0, 3).Draw(t, "extra"), Global: rapid.Bool().Draw(t, "global")}
 		if st.Kind == "select" {
 			st.Res = rapid.SliceOfN(typ, 1, 3).Draw(t, "res")
+			if rapid.IntRange(0, 11).Draw(t, "wide") == 0 {
+				st.Wide = rapid.SampledFrom([]int{40, 999, 1000, 1001}).Draw(t, "wide_n")
+			}
 		} else {
 			dml = append(dml, i)
 		}
